@@ -107,6 +107,9 @@ class Dumper:
         if t in (pp.And, pp.MatchFirst, pp.Or):
             kind = {pp.And: "and", pp.MatchFirst: "mf", pp.Or: "or"}[t]
             return "(N %s %s %s (%s))" % (A, I, kind, " ".join(self.expr(x) for x in e.exprs))
+        if t is pp.Each:
+            kids = " ".join(self.expr(x) for x in e.exprs)       # first: fills the str() caches that `==` looks at
+            return "(N %s %s (each %s) (%s))" % (A, I, self.each_info(e), kids)
         if t is pp.Forward:
             if e.expr is None:
                 return "(F %s %s N)" % (A, I)
@@ -144,6 +147,76 @@ class Dumper:
             return "(E %s %s %s %s)" % (A, I, ek, self.expr(e.expr))
         raise Unsupported("class " + t.__name__)
 
+    # ---- Each: what parseImpl reads from its children beyond their dumped structure
+    @staticmethod
+    def _plain_rename(b, t):
+        """is the copy t (made by set_results_name) of b the same grammar up to the name?  copy() resets the whitespace
+        characters of elements with copyDefaultWhiteChars, deep-copies the children of And/Or/MatchFirst/Each and gives
+        a Forward a new identity (the key of the left-recursion memo): those copies are outside the model"""
+        if type(b) is not type(t) or set(b.whiteChars) != set(t.whiteChars) or isinstance(b, pp.Forward):
+            return False
+        if isinstance(b, pp.ParseExpression):
+            return len(b.exprs) == len(t.exprs) and all(Dumper._plain_rename(x, y) for x, y in zip(b.exprs, t.exprs))
+        return True
+
+    def each_info(self, e):
+        """per child: (mayReturnEmpty, class of the child under ParserElement.__eq__, class of its operand), where the
+        operand is what initExprGroups puts into self.required / optionals / multioptionals for the child.  Classes are
+        numbered by the first member; `==` is the real `vars(self) == vars(other)` evaluated on the real objects."""
+        reps = (pp.OneOrMore, pp.ZeroOrMore)
+        objs = []
+        for c in e.exprs:
+            if isinstance(c, pp.Opt):
+                op = c.expr
+            elif isinstance(c, reps):
+                if c.resultsName is None:
+                    op = c.expr
+                else:
+                    if c.expr is None:
+                        raise Unsupported("Each: repetition without expr")
+                    op = c.expr.set_results_name(c.resultsName, list_all_matches=True)    # the copy initExprGroups makes
+                    if op is c.expr or not self._plain_rename(c.expr, op):
+                        raise Unsupported("Each: named repetition whose copy is not a plain rename")
+            else:
+                op = c
+            objs += [c, op]
+        if not e.initExprGroups:
+            self._each_check_groups(e)
+        try:
+            eq = [[(x is y) or bool(x == y) for y in objs] for x in objs]
+        except RecursionError:
+            raise Unsupported("Each: == on operands recurses")
+        cls = [min(j for j in range(len(objs)) if eq[j][i]) for i in range(len(objs))]
+        if any(eq[i][j] != (cls[i] == cls[j]) for i in range(len(objs)) for j in range(len(objs))):
+            raise Unsupported("Each: == on operands is not an equivalence")
+        return " ".join("(%d %d %d)" % (int(bool(c.mayReturnEmpty)), cls[2 * i], cls[2 * i + 1]) for i, c in enumerate(e.exprs))
+
+    @staticmethod
+    def _each_check_groups(e):
+        """initExprGroups already ran (an earlier parse): the stored groups must be what the model recomputes"""
+        reps = (pp.OneOrMore, pp.ZeroOrMore)
+
+        def same_multi(stored, children):
+            if len(stored) != len(children):
+                return False
+            for r, c in zip(stored, children):
+                if c.resultsName is None:
+                    if r is not c.expr:
+                        return False
+                elif r is c.expr or type(r) is not type(c.expr) or r.resultsName != c.resultsName or r.modalResults:
+                    return False
+            return True
+        plain = [c for c in e.exprs if not isinstance(c, (pp.Opt,) + reps)]
+        plus = [c for c in e.exprs if isinstance(c, pp.OneOrMore)]
+        opts = [c.expr for c in e.exprs if isinstance(c, pp.Opt)] + \
+               [c for c in e.exprs if c.mayReturnEmpty and not isinstance(c, (pp.Opt, pp.Regex, pp.ZeroOrMore))]
+        ok = (len(e.required) == len(plain) + len(plus) and all(x is y for x, y in zip(e.required, plain))
+              and same_multi(e.required[len(plain):], plus)
+              and len(e.optionals) == len(opts) and all(x is y for x, y in zip(e.optionals, opts))
+              and same_multi(e.multioptionals, [c for c in e.exprs if isinstance(c, reps)]))
+        if not ok:
+            raise Unsupported("Each: stale expression groups")
+
     def dump(self, root):
         """returns (root_sx, env_sx).  Forward bodies are dumped after the root; bodies may reference further forwards."""
         r = self.expr(root)
@@ -162,5 +235,8 @@ class Dumper:
             if m[0] == "user":
                 return "user%s" % m[1]
             if m[0] == "missing":
-                return "missing"
+                # Each: f"Missing one or more required elements ({', '.join(str(e) for e in tmpReqd)})"; a copy made by
+                # initExprGroups carries the node id (hence the str()) of the element it was copied from
+                return "Missing one or more required elements (%s)" % ", ".join(
+                    str(self.objs[int(i) - 1]) if 0 < int(i) <= len(self.objs) else "?node%s" % i for i in m[1:])
         return FIXED_MSG.get(m, "?" + str(m))
